@@ -12,6 +12,7 @@ use mc_core::io::{IoOpts, IoState, ScriptIo};
 use mc_core::wake::WakeCounter;
 use mc_core::Chooser;
 use std::cell::RefCell;
+use std::mem::ManuallyDrop;
 use std::future::Future;
 use std::pin::Pin;
 use std::rc::Rc;
@@ -29,7 +30,7 @@ struct State {
 }
 
 thread_local! {
-    static ST: RefCell<Option<State>> = const { RefCell::new(None) };
+    static ST: RefCell<Option<ManuallyDrop<State>>> = const { RefCell::new(None) };
 }
 
 async fn handle(mut req: Request) -> Result<Response<BoxBody>, actix_http::Error> {
@@ -172,10 +173,11 @@ async fn drive(connect: &dyn Fn(ScriptIo) -> ConnFut, input: &[u8], mode: Mode) 
 
 fn exec(input: &[u8], mode: Mode) -> Out {
     // taken out of the slot while in use: a panic drops it and the next case builds a fresh one
-    let mut st = ST.with(|c| c.borrow_mut().take()).filter(|s| s.uses < 512).unwrap_or_else(make);
+    let mut st = ST.with(|c| c.borrow_mut().take()).map(ManuallyDrop::into_inner).filter(|s| s.uses < 512).unwrap_or_else(make);
     st.uses += 1;
     let out = st.local.block_on(&st.rt, drive(st.connect.as_ref(), input, mode));
-    ST.with(|c| *c.borrow_mut() = Some(st));
+    // (never dropped from the thread-local destructor: tokio's own thread-locals may be gone by then)
+    ST.with(|c| *c.borrow_mut() = Some(ManuallyDrop::new(st)));
     out
 }
 
@@ -231,6 +233,14 @@ pub fn group() -> Group {
             exec: exec.clone(),
         },
     ];
+    for (name, prefix, suffix) in [
+        ("long:header-name", b"GET / HTTP/1.1\r\n".as_ref(), b": x\r\n\r\n".as_ref()),
+        ("long:uri", b"GET /", b" HTTP/1.1\r\n\r\n"),
+    ] {
+        let mut t = mk(name, prefix, suffix, crate::ep_h1::long_alphabet(), [2, 2]);
+        t.delivery = Delivery::Whole;
+        targets.push(t);
+    }
     targets.push(Target {
         name: "dispatcher:seed".into(),
         prefix: vec![],
@@ -238,7 +248,7 @@ pub fn group() -> Group {
         alphabet: vec![],
         max_tokens: [0, 0],
         seeds: crate::ep_h1::server_seeds(),
-        double: false,
+        double: true,
         delivery: Delivery::WholeBytes1,
         exec,
     });
